@@ -288,6 +288,9 @@ func replayHistory(seg string, ops []hist.Op) (err error) {
 
 func TestReplay(t *testing.T) {
 	ev.RunReplays(func(raw json.RawMessage, f ev.Failure) error {
+		if fn, ok := libReplayers[f.Campaign]; ok { // library-level companion campaigns (lib_*_test.go)
+			return fn(raw)
+		}
 		var hc struct {
 			Seg string `json:"segrows"`
 		}
